@@ -245,6 +245,9 @@ func (p *FloatingIPPlugin) Release(r *ReleaseRequest) error {
 		return fmt.Errorf("pod %s_%s (uid %s) is running", k.Namespace, k.PodName, fip.PodUid)
 	}
 	glog.Infof("%s is not running, %s, %s", k.KeyInDB, reason, caller)
+	if p.keyOwnedByRunningPod(k, fip.PodUid) {
+		return fmt.Errorf("pod %s_%s is running with other ips of key %s", k.Namespace, k.PodName, k.KeyInDB)
+	}
 	if p.cloudProvider != nil && fip.NodeName != "" {
 		// For tapp and sts pod, nodeName will be updated to empty after unassigning
 		glog.Infof("UnAssignIP nodeName %s, ip %s, key %s %s", fip.NodeName, r.IP.String(), k.KeyInDB, caller)
